@@ -561,6 +561,10 @@ theorem swap_self (s : St) (e : Nat) : swap s e e = s := by
   unfold swap
   rw [swapList_self, swapList_self]
 
+theorem findIdx_spec {α : Type} (p : α → Bool) (l : List α) (h : l.findIdx p < l.length) :
+    ∃ a, l[l.findIdx p]? = some a ∧ p a = true :=
+  ⟨l[l.findIdx p], List.getElem?_eq_getElem h, List.findIdx_getElem (w := h)⟩
+
 /-- the recorded path is found in its own slot (live paths are pairwise distinct) -/
 theorem findIdx_live {s : St} {H : List (Nat × Nat)} {tn : Nat} (h : CoreR s H tn) (e tr : Nat)
     (he : e < s.n - 1) (ht : s.trajs[e]? = some (some tr)) :
@@ -574,15 +578,13 @@ theorem findIdx_live {s : St} {H : List (Nat × Nat)} {tn : Nat} (h : CoreR s H 
     exact ht
   split
   · rename_i hlt
-    have hv := List.findIdx_getElem (w := hlt)
-    have hi : s.trajs.dropLast.findIdx (· == some tr) < s.n - 1 := by rw [← hlen]; exact hlt
-    have hti : s.trajs[s.trajs.dropLast.findIdx (· == some tr)]? = some (some tr) := by
-      have h1 : s.trajs.dropLast[s.trajs.dropLast.findIdx (· == some tr)]? = some (some tr) := by
-        rw [List.getElem?_eq_getElem hlt]
-        simpa using hv
-      rw [List.getElem?_dropLast, if_pos (by rw [h.lenT]; exact hi)] at h1
-      exact h1
-    exact congrArg some (h.inj _ e tr hi he hti ht)
+    obtain ⟨a, ha, hpa⟩ := findIdx_spec _ _ hlt
+    have haeq : a = some tr := by simpa using hpa
+    subst haeq
+    generalize List.findIdx _ s.trajs.dropLast = i at hlt ha ⊢
+    have hi : i < s.n - 1 := by rw [← hlen]; exact hlt
+    rw [List.getElem?_dropLast, if_pos (by rw [h.lenT]; exact hi)] at ha
+    exact congrArg some (h.inj i e tr hi he ha ht)
   · rename_i hnlt
     exact absurd (List.findIdx_lt_length_of_exists ⟨some tr, hin, by simp⟩) hnlt
 
@@ -743,12 +745,14 @@ theorem pickLock_coreR {s s' : St} {H : List (Nat × Nat)} {tn : Nat} (h : CoreR
       rw [List.map_map]
       have h2 : (enss0.zip trajs0).map Prod.snd = trajs0 := List.map_snd_zip (by omega)
       conv_rhs => rw [← h2]
+      rfl
     refine ⟨?_, ?_, heng, ?_, ?_, ?_, Or.inr ⟨(enss0, trajs0), ?_⟩⟩
     · rw [hheld]
       exact hc1.congr (s' := reissued s s1 enss0 trajs0) ⟨rfl, rfl, rfl, rfl, rfl, rfl⟩
     · have := ha1.toAux
-      exact AuxEq.trans (AuxEq.trans ⟨rfl, rfl, rfl, rfl, rfl, rfl, rfl, rfl, rfl⟩ this)
-        ⟨rfl, rfl, rfl, rfl, rfl, rfl, rfl, rfl, rfl⟩
+      refine AuxEq.trans (AuxEq.trans ?_ this) ?_
+      · exact ⟨rfl, rfl, rfl, rfl, rfl, rfl, rfl, rfl, rfl⟩
+      · exact ⟨rfl, rfl, rfl, rfl, rfl, rfl, rfl, rfl, rfl⟩
     · -- shape
       have hlen : ps1.length = enss0.length := by
         have := congrArg List.length hens
